@@ -65,6 +65,11 @@ CLAIMED = {
   "Trusted: go/ssa, gosym interpreter/scheduler, time model; real context/timestamppb/digest code is interpreted. Outside the claim: LaunchWorkerThread's back-off loop (sleep/jitter), more than 3 Run calls, symbolic synchronisation instants.",
   "symbolic execution of go/ssa with exhaustive bounded reply/progress sequences and engine-scheduled goroutines, native replay",
   "DESIGN.md §4 C08"),
+ "C09": (
+  "Bounded symbolic model checking of the real code: cachingBuildExecutor.Execute over storageFlushingBuildExecutor.Execute over a base executor stub that stores <=3 blobs (2 digests, so duplicates occur) through the real batchedStoreBlobAccess (Put, flushLocked, the flush closure, errgroup and semaphore code interpreted), batch size 1..3, composed in the order of cmd/bb_worker/main.go. Every outcome is explored: each CAS FindMissing and Put may fail, blobs may already be present, AC Put may fail, action status OK/non-OK, exit code, do_not_cache. Asserted inside the AC stub at the moment of the AC Put: not do_not_cache, OK status, exit code 0, every blob whose batched Put was acknowledged is in the CAS; afterwards: at most one AC Put; any failed output write or flush => error status, no AC Put, output digests pruned; flush success => every acknowledged write is stored; every buffer consumed exactly once; store lock released.",
+  "Trusted: go/ssa, gosym interpreter, z3; real bb-storage buffer/digest-set/errgroup/semaphore code interpreted; proto.Marshal structural model. Outside the claim: the decorator order itself is read from main.go by hand (assumption), real gRPC BlobAccess, metrics decorators between the layers, more than 3 blobs, context cancellation during the flush.",
+  "symbolic execution of go/ssa over all fault positions of a bounded upload sequence (boolean fault variables forked without solver, data-dependent branches by z3), native replay",
+  "DESIGN.md §4 C09"),
 }
 
 PENDING_REASON = "check not registered yet (framework under construction; see DESIGN.md §6 build order)"
